@@ -68,14 +68,24 @@ theorem isNull_withMarks (p : Payload) (ms : List String) : (p.withMarks ms).isN
   · cases p <;> simp [isNull, unmark1]
 end Payload
 
-theorem covers_unmark_left (w o : Value) : Covers w.unmark o = Covers w o := by
-  simp [Covers, Value.unmark, Payload.stripMarks_unmark1]
-theorem covers_unmark_right (w o : Value) : Covers w o.unmark = Covers w o := by
-  simp [Covers, Value.unmark, Payload.stripMarks_unmark1]
-theorem covers_withMarks_left (w o : Value) (ms : List String) : Covers (w.withMarks ms) o = Covers w o := by
-  simp [Covers, Value.withMarks, Payload.stripMarks_withMarks]
-theorem covers_withMarks_right (w o : Value) (ms : List String) : Covers w (o.withMarks ms) = Covers w o := by
-  simp [Covers, Value.withMarks, Payload.stripMarks_withMarks]
+theorem coversG_unmark_left (ex : Bool) (w o : Value) : CoversG ex w.unmark o = CoversG ex w o := by
+  simp [CoversG, Value.unmark, Payload.stripMarks_unmark1]
+theorem coversG_unmark_right (ex : Bool) (w o : Value) : CoversG ex w o.unmark = CoversG ex w o := by
+  simp [CoversG, Value.unmark, Payload.stripMarks_unmark1]
+theorem coversG_withMarks_left (ex : Bool) (w o : Value) (ms : List String) :
+    CoversG ex (w.withMarks ms) o = CoversG ex w o := by
+  simp [CoversG, Value.withMarks, Payload.stripMarks_withMarks]
+theorem coversG_withMarks_right (ex : Bool) (w o : Value) (ms : List String) :
+    CoversG ex w (o.withMarks ms) = CoversG ex w o := by
+  simp [CoversG, Value.withMarks, Payload.stripMarks_withMarks]
+theorem covers_unmark_left (w o : Value) : Covers w.unmark o = Covers w o := coversG_unmark_left _ _ _
+theorem covers_unmark_right (w o : Value) : Covers w o.unmark = Covers w o := coversG_unmark_right _ _ _
+theorem covers_withMarks_left (w o : Value) (ms : List String) : Covers (w.withMarks ms) o = Covers w o :=
+  coversG_withMarks_left _ _ _ _
+theorem covers_withMarks_right (w o : Value) (ms : List String) : Covers w (o.withMarks ms) = Covers w o :=
+  coversG_withMarks_right _ _ _ _
+theorem coversX_unmark_left (w o : Value) : CoversX w.unmark o = CoversX w o := coversG_unmark_left _ _ _
+theorem coversX_unmark_right (w o : Value) : CoversX w o.unmark = CoversX w o := coversG_unmark_right _ _ _
 theorem whollyKnown_unmark (v : Value) : v.unmark.whollyKnown = v.whollyKnown := by
   simp [Value.whollyKnown, Value.unmark, Payload.whollyKnown_unmark1]
 theorem whollyKnown_withMarks (v : Value) (ms : List String) : (v.withMarks ms).whollyKnown = v.whollyKnown := by
@@ -115,12 +125,12 @@ theorem res_map_ok {α β} {f : α → β} {x : Res α} {r : β} (h : x.map f = 
 
 /-- soundness of an operation on operands without a marker at the top -/
 def SoundU₁ (f : Value → Res Value) : Prop :=
-  ∀ o w r, o.whollyKnown = true → o.isMarked = false → w.isMarked = false → Covers w o = true → f o = .ok r →
+  ∀ o w r, o.whollyKnown = true → o.isMarked = false → w.isMarked = false → CoversX w o = true → f o = .ok r →
     ∃ r', f w = .ok r' ∧ Covers r' r = true
 def SoundU₂ (f : Value → Value → Res Value) : Prop :=
   ∀ o₁ o₂ w₁ w₂ r, o₁.whollyKnown = true → o₂.whollyKnown = true →
     o₁.isMarked = false → o₂.isMarked = false → w₁.isMarked = false → w₂.isMarked = false →
-    Covers w₁ o₁ = true → Covers w₂ o₂ = true → f o₁ o₂ = .ok r →
+    CoversX w₁ o₁ = true → CoversX w₂ o₂ = true → f o₁ o₂ = .ok r →
     ∃ r', f w₁ w₂ = .ok r' ∧ Covers r' r = true
 
 theorem flat_unmark {w : Value} (h : w.flatMarks = true) : w.unmark.isMarked = false := by
@@ -131,7 +141,7 @@ theorem sound_unMarks {f : Value → Res Value} (h : SoundU₁ f) : Sound₁ (un
   rw [unMarks_eq] at ho ⊢
   obtain ⟨r0, h0, rfl⟩ := res_map_ok ho
   obtain ⟨r', h1, h2⟩ := h o.unmark w.unmark r0 (by rw [whollyKnown_unmark]; exact hk) (flat_unmark hfo) (flat_unmark hf)
-    (by rw [covers_unmark_left, covers_unmark_right]; exact hc) h0
+    (by rw [coversX_unmark_left, coversX_unmark_right]; exact hc) h0
   refine ⟨_, by rw [h1]; rfl, ?_⟩
   by_cases ha : o.isMarked = true <;> by_cases hb : w.isMarked = true <;>
     simp [ha, hb, covers_withMarks_left, covers_withMarks_right, h2]
@@ -143,8 +153,8 @@ theorem sound_binMarks {f : Value → Value → Res Value} (h : SoundU₂ f) : S
   obtain ⟨r', h1, h2⟩ := h o₁.unmark o₂.unmark w₁.unmark w₂.unmark r0
     (by rw [whollyKnown_unmark]; exact hk₁) (by rw [whollyKnown_unmark]; exact hk₂)
     (flat_unmark hfo₁) (flat_unmark hfo₂) (flat_unmark hf₁) (flat_unmark hf₂)
-    (by rw [covers_unmark_left, covers_unmark_right]; exact hc₁)
-    (by rw [covers_unmark_left, covers_unmark_right]; exact hc₂) h0
+    (by rw [coversX_unmark_left, coversX_unmark_right]; exact hc₁)
+    (by rw [coversX_unmark_left, coversX_unmark_right]; exact hc₂) h0
   refine ⟨_, by rw [h1]; rfl, ?_⟩
   by_cases ha : (o₁.isMarked || o₂.isMarked) = true <;> by_cases hb : (w₁.isMarked || w₂.isMarked) = true <;>
     simp_all [covers_withMarks_left, covers_withMarks_right]
